@@ -260,17 +260,74 @@ def judge_run(chk: harness.Check, name: str, text: str, target: str, result: dri
 recorder_original = None
 
 
+class ErrorBirths:
+    """
+    Monitor on ``common.Error.__init__``: who constructed an error object during a run.
+
+    A run that exits 0 must not have constructed any -- an error object that exists and is
+    not reported has been dropped.  The one legitimate source is the speculative matching
+    of ``intermediate.pattern_verification.try_to_understand`` (its errors say "this is not
+    a pattern verification function", the function is then tried as a transpilable one).
+    """
+
+    SPECULATIVE = ("pattern_verification.py:try_to_understand",)
+
+    def __init__(self) -> None:
+        from aas_core_codegen.common import Error
+
+        self.cls = Error
+        self.original = Error.__init__
+        self.births: List[Tuple[str, str]] = []
+        births = self.births
+        original = self.original
+
+        def init(this, *args, **kwargs):  # type: ignore
+            original(this, *args, **kwargs)
+            import traceback as tb
+
+            where = "?"
+            for frame in reversed(tb.extract_stack(limit=10)[:-1]):
+                if "icontract" in frame.filename or frame.filename == __file__:
+                    continue
+                where = f"{frame.filename.rsplit('aas_core_codegen/', 1)[-1]}:{frame.name}"
+                break
+            births.append((where, str(getattr(this, "message", ""))[:200]))
+
+        Error.__init__ = init  # type: ignore
+
+    def uninstall(self) -> None:
+        self.cls.__init__ = self.original  # type: ignore
+
+    def dropped(self) -> List[Tuple[str, str]]:
+        return [b for b in self.births if not b[0].endswith(self.SPECULATIVE)]
+
+
 def run_and_judge(chk, name, text, target, markers=None, kind="", extra_snippets=None) -> None:
     global recorder_original
     recorder = Recorder()
     monitor = hooks.Monitor("aas_core_codegen.run", "write_error_report", recorder.observer)
     recorder_original = monitor.original
+    births = ErrorBirths()
     try:
         result = driver.run_inprocess(text, target, extra_snippets=extra_snippets)
     finally:
         monitor.uninstall()
+        births.uninstall()
     try:
         judge_run(chk, name, text, target, result, recorder, markers, kind)
+        chk.count("error_objects_constructed", len(births.births))
+        if result.exc is None and result.rc == 0:
+            chk.count("runs_exit_0_checked_for_constructed_errors")
+            dropped = births.dropped()
+            if dropped:
+                where = sorted({w for w, _ in dropped})[0]
+                chk.violation(
+                    f"error-constructed-but-run-exits-0/{target}/{where}",
+                    {"model": name, "target": target, "text": text, "rc": result.rc,
+                     "errors_constructed_and_not_reported": [list(b) for b in dropped[:12]]},
+                )
+            else:
+                chk.count("speculative_errors_seen", len(births.births))
     finally:
         result.cleanup()
 
@@ -368,6 +425,30 @@ def worker(args) -> Dict[str, Any]:
         jobs.append((f"conservation/{kind}/k={k}", text, targets[(i + 5) % len(targets)], markers, kind))
         text, markers, mixed_kind = mixed_conservation_model(rng)
         jobs.append((f"conservation/{mixed_kind}", text, targets[(i + 6) % len(targets)], markers, "mixed-kinds-of-one-stage"))
+    # models that only some targets can express: the target must say so, not leave it out
+    import pathlib as _pathlib
+
+    data = _pathlib.Path(__file__).resolve().parent.parent / "data"
+    targeted = [
+        ("targeted/big-integer-in-set", (data / "c03_big_integer_in_set_model.py.txt").read_text(encoding="utf-8")),
+        ("targeted/big-integers", (data / "c03_big_integers_model.py.txt").read_text(encoding="utf-8")),
+    ]
+    for t, (name, text) in enumerate(targeted):
+        for k, target in enumerate(targets):
+            if (k + 3 * t) % n_shards == shard:
+                jobs.insert(min(len(jobs), 2), (name, text, target, None, ""))
+    # near-collisions of names (C21's scenarios): a generator that builds the error and
+    # then generates anyway shows as an error object constructed in a run that exits 0
+    from vf.checks import c21 as collisions
+
+    scenarios = collisions.scenarios(chk.tier)
+    chk.rng("collisions").shuffle(scenarios)
+    sdk_targets = [t for t in targets if t not in ("jsonschema", "xsd")]
+    for j, scenario in enumerate(scenarios[: chk.pick(36, 200)]):
+        if j % n_shards == shard:
+            jobs.insert(min(len(jobs), 3 + 3 * (j // n_shards)),
+                        (f"collision/{scenario.kind}/{scenario.pattern}", scenario.texts()[0],
+                         sdk_targets[j % len(sdk_targets)], None, ""))
     # reports with several top-level entries: unexpected imports, invalid snippet keys
     good = corpus.small_common()[shard % len(corpus.small_common())][1]
     for j in range(2):
